@@ -1,8 +1,65 @@
+/-
+  C10: elastic buffers (ring + linked list) behave as one FIFO byte queue.
+  Only property theorems and non-vacuity examples live here; helper lemmas are in
+  Gnet/Proofs/Elastic.lean. Statements are never weakened to make a proof pass.
+-/
 import Gnet.Model.Elastic
+import Gnet.Proofs.Elastic
 namespace Gnet.Props.C10
 open Gnet
 
-theorem elastic_new_empty (ms : Nat) (p : RbPool) : (Elastic.new ms p : Elastic Nat).abs = [] := by
-  simp [Elastic.new, Elastic.abs, ERing.abs, LL.abs, LL.empty]
+variable {α : Type} [Inhabited α]
+
+/-- `elastic.RingBuffer`: every operation from every well-formed state (ring held or returned
+    to the pool, any pool content) keeps the invariant and is a step of the FIFO specification. -/
+theorem ering_step_refines (gen : Nat → α) (b : ERing α) (pos : Nat) (op : ElasticFifo.Op α) (h : b.WF) :
+    (ERing.step gen (b, pos) op).1.1.WF ∧
+    ElasticFifo.Step gen (b.abs, pos) op
+      ((ERing.step gen (b, pos) op).1.1.abs, (ERing.step gen (b, pos) op).1.2) (ERing.step gen (b, pos) op).2 :=
+  Proofs.Elastic.ering_step_refines gen b pos op h
+
+theorem ering_run_refines (gen : Nat → α) (pool : RbPool) (ops : List (ElasticFifo.Op α)) :
+    (ERing.run gen (⟨none, pool⟩, 0) ops).1.1.WF ∧
+    ElasticFifo.Run gen ([], 0) ops (ERing.run gen (⟨none, pool⟩, 0) ops).2
+      ((ERing.run gen (⟨none, pool⟩, 0) ops).1.1.abs, (ERing.run gen (⟨none, pool⟩, 0) ops).1.2) :=
+  Proofs.Elastic.ering_run_refines gen pool ops
+
+/-- `elastic.Buffer`: the content is `ring ++ list`, ring bytes older; every operation (Write,
+    Writev with any split, ReadFrom, Read, Peek, Discard, WriteTo, Reset, Release) is a FIFO step:
+    the switch-over at the static limit never reorders or drops bytes, `Peek(n)` yields exactly
+    the first `n` bytes for `0 < n ≤ Buffered`, `Discard(n)` removes exactly `min n Buffered`. -/
+theorem elastic_step_refines (gen : Nat → α) (m : Elastic α) (pos : Nat) (op : ElasticFifo.Op α) (h : m.WF) :
+    (Elastic.step gen (m, pos) op).1.1.WF ∧
+    ElasticFifo.Step gen (m.abs, pos) op
+      ((Elastic.step gen (m, pos) op).1.1.abs, (Elastic.step gen (m, pos) op).1.2) (Elastic.step gen (m, pos) op).2 :=
+  Proofs.Elastic.elastic_step_refines gen m pos op h
+
+/-- all finite histories, every static-size limit, every pool content -/
+theorem elastic_run_refines (gen : Nat → α) (ms : Nat) (pool : RbPool) (ops : List (ElasticFifo.Op α)) :
+    (Elastic.run gen (Elastic.new ms pool, 0) ops).1.1.WF ∧
+    ElasticFifo.Run gen ([], 0) ops (Elastic.run gen (Elastic.new ms pool, 0) ops).2
+      ((Elastic.run gen (Elastic.new ms pool, 0) ops).1.1.abs, (Elastic.run gen (Elastic.new ms pool, 0) ops).1.2) :=
+  Proofs.Elastic.elastic_run_refines gen ms pool ops
+
+/-- `Buffered` and `IsEmpty` agree with the content -/
+theorem elastic_counters (m : Elastic α) (h : m.WF) :
+    m.buffered = (m.abs.length : Int) ∧ (m.isEmpty = true ↔ m.buffered = 0) :=
+  Proofs.Elastic.elastic_counters m h
+
+theorem ering_counters (b : ERing α) (h : b.WF) :
+    b.buffered = b.abs.length ∧ (b.isEmpty = true ↔ b.buffered = 0) ∧ b.buffered + b.available = b.cap :=
+  Proofs.Elastic.ering_counters b h
+
+/-- a ring obtained from the pool (or freshly made) is well formed and empty -/
+theorem ering_inst_fresh (b : ERing α) (h : b.rb = none) :
+    (b.inst).1.WF ∧ (b.inst).1.abs = [] :=
+  Proofs.Elastic.ering_inst_fresh b h
+
+-- non-vacuity: a state with data in the ring and in the list at the same time
+example : (Elastic.step (fun i => i) ((Elastic.new 2 ⟨some 4, []⟩ : Elastic Nat), 0) (.writev [[1, 2, 3], [4]])).1.1.abs
+    = [1, 2, 3, 4] := by decide
+example : ((Elastic.step (fun i => i) ((Elastic.new 2 ⟨some 4, []⟩ : Elastic Nat), 0) (.writev [[1, 2, 3], [4]])).1.1.list.segs.length,
+           (Elastic.step (fun i => i) ((Elastic.new 2 ⟨some 4, []⟩ : Elastic Nat), 0) (.writev [[1, 2, 3], [4]])).1.1.ring.buffered)
+    = (2, 2) := by decide
 
 end Gnet.Props.C10
